@@ -51,6 +51,9 @@ func init() {
 			{ID: "C08-R26", Title: "converters hand out what they take back", Floor: 10, Run: convertersHandOutWhatTheyTakeBack},
 			{ID: "C08-R27", Title: "recursion over Go types is guarded", Floor: 1, Run: recursionOverGoTypesIsGuarded},
 			{ID: "C08-R28", Title: "raised errors are not pushed as values", Floor: 1, Run: raisedErrorsAreNotPushedAsValues},
+			{ID: "C08-R29", Title: "converted errors are values", Floor: 1, Run: convertedErrorsAreValues},
+			{ID: "C08-R30", Title: "entries made on the way are withdrawn with their cause (shared with C05-R14)", Floor: 2, Run: entriesMadeOnTheWayAreWithdrawnWithTheirCause},
+			{ID: "C08-R31", Title: "map lookups use the map's own keys", Floor: 1, Run: mapLookupsUseTheMapsOwnKeys},
 		},
 	})
 }
